@@ -46,6 +46,15 @@ CHECKS = {
               'the property is evaluated against DocDomain on the real return codes, and every range printed in the user guide is probed on the real code (disagreements are listed known findings).'),
         note=('Trusted: Coq kernel; translators/cast.py+tr_verify.py (validated by the differential run); the transcription of the guide/header into DocDomain.v; extraction + OCaml driver; gcc. Out of scope of the model (named, '
               'decided by sp_in_scope): manual prediction structures. Cells whose C type cannot hold the out-of-range value are not probed.')),
+    'C13': dict(
+        category='proof', design_ref='DESIGN.md §6 C13',
+        technique='Coq theorem over a model regenerated from the C source (one term per configuration cell) + dirty-prior dumps of the real handle creation',
+        text=('defaults_independent: the Gallina translation of svt_svt_enc_init_parameter (regenerated from /repo on every run; 144 cells incl. array cells, pointer fields and aggregates) yields the same '
+              'configuration for any two contents of the caller\'s prior memory (every cell is assigned); defaults_accepted_partial: with the listed picture sizes the defaults pass the regenerated validation model. '
+              'Tied to the code by dumping every cell after the real svt_av1_enc_init_handle on caller memory pre-filled with 0x00/0xFF/0xA5/random patterns (dumps must be identical and equal to the model) and by '
+              'running the defaults through the real validation for all even widths, all even heights and 2000 random sizes.'),
+        note=('Trusted: Coq kernel (vm_compute for the evaluated examples); translators/cast.py+tr_defaults.py; extraction + OCaml driver; gcc. "Yields identical output when encoding" is covered only through the identity '
+              'of the returned configuration (the encoder reads nothing else from that memory); acceptance for every size is swept on the real code, proved only for the listed sizes.')),
 }
 
 NOT_BUILT_REASON = 'check not built yet in this development (work in progress); no claim is made'
